@@ -206,7 +206,8 @@ class Variable(object):
                 cvar["compose"] = [cvar["type"]]
             if "compose" in var_context:
                 assert isinstance(var_context["compose"], list)
-                cvar["compose"].extend(cur_type)
+                # types of a composed variable end with its own type
+                cvar["compose"].extend(var_context["compose"])
             else:
                 if cur_type:
                     cvar["compose"].append(cur_type)
